@@ -30,6 +30,14 @@ overwrite.*
   overwrite.selection_ranges_over_all_existing    the filter ranges over all row groups of the dataset as opened
   overwrite.write_before_remove / metadata_written_last / writes_the_new_data
   overwrite.simple_scheme_raises / no_partitions_raises / raise_before_any_effect
+  overwrite.partition_text_conventions_agree[T]   backend `enumeration (executed)`: for every value v of the partition value-type table T
+                                             (bool, numpy/nullable bool, ints, float64/float32 integral and fractional, str, date objects,
+                                             datetime64 naive/tz-aware, categories of those, two columns) the REAL pure prefix of
+                                             partition_on_columns' group loop (groupby key -> path_string -> join_path) and the REAL filter
+                                             predicate of overwrite (partitions(path, True) in <text of the new data>) are executed: the row
+                                             group filed under <col>=<text of v> is selected exactly when the new data holds v.  Complete
+                                             for the type table, bounded in the value dimension.  REFUTED = known findings for Timestamp
+                                             keys (isoformat vs astype(str)) and float32 values with inexact decimals
 partitions.*                None iff the path has no '/'; only_values=False: the directory of the path; True: '/'.join(re.split('/|=', p)[1::2])
 part_ids.*                  keys == part numbers of the referenced files; D[n] == (f, path_f), f the FIRST row group with number n
 rename.* (_sort_part_names) ghost directory map, see run_sort:
@@ -1962,14 +1970,224 @@ def check_plan(ctx, eng, q, passes, res, timeout):
         ctx.vacuity["must_fail_sat"] += 1
 
 
-PART_FUNC = {"map": "row_groups_map", "remove": "remove_row_groups", "overwrite": "overwrite", "partitions": "partitions",
+# =================================================================================================================
+#  the two text conventions overwrite relies on:  directory text written  vs.  text compared by overwrite
+# =================================================================================================================
+FID_TS_TEXT = "C09-P-overwrite-timestamp-partition-text"
+FID_F32_TEXT = "C09-P-overwrite-float32-partition-text"
+
+
+def _free_names(node, bound=()):
+    bound = set(bound)
+    for n in ast.walk(node):
+        if isinstance(n, ast.Lambda):
+            bound |= {a.arg for a in n.args.args}
+        if isinstance(n, ast.comprehension):
+            bound |= _names(n.target)
+    return [n.id for n in ast.walk(node) if isinstance(n, ast.Name) and isinstance(n.ctx, ast.Load) and n.id not in bound]
+
+
+def _producer(pfunc, ns):
+    """writer.partition_on_columns with its I/O cut off: the REAL statements that compute, per group of the frame, the group key and
+    the relative file name (everything before the first call statement / with-block of the group loop); returns
+    f(data, columns) -> [(key, relative file name, row labels of the group)]"""
+    import copy
+    fn = copy.deepcopy(pfunc.tree)
+    loops = [k for k, st in enumerate(fn.body) if isinstance(st, ast.For)]
+    if not loops:
+        raise Unsupported("partition_on_columns: no group loop")
+    k = loops[-1]
+    loop = fn.body[k]
+    rel = [n.value.id for n in ast.walk(loop) if isinstance(n, ast.Assign) and isinstance(n.value, ast.Name)
+           and any(isinstance(t, ast.Attribute) and t.attr == "file_path" for t in n.targets)]
+    if not rel:
+        raise Unsupported("partition_on_columns: no `chunk.file_path = <name>` in the group loop")
+    kept = []
+    for st in loop.body:
+        if isinstance(st, ast.With) or (isinstance(st, ast.Expr) and isinstance(st.value, ast.Call)):
+            break
+        kept.append(st)
+    if not any(rel[0] in _names(t) for st in kept for n in ast.walk(st) if isinstance(n, ast.Assign) for t in n.targets):
+        raise Unsupported("partition_on_columns: the relative file name is not computed before the first I/O call")
+    if len(loop.target.elts if isinstance(loop.target, ast.Tuple) else []) != 2:
+        raise Unsupported("partition_on_columns: group loop target is not (key, group)")
+    key_n, grp_n = [e.id for e in loop.target.elts]
+    rec = ast.parse(f"__out.append(({key_n}, {rel[0]}, list({grp_n}.index)))").body[0]
+    loop.body = kept + [rec]
+    loop.orelse = []
+    fn.body = [ast.parse("__out = []").body[0]] + [st for st in fn.body[:k] if not (isinstance(st, ast.Expr) and isinstance(st.value, ast.Constant))] \
+        + [loop, ast.parse("def f():\n return __out").body[0].body[0]]
+    fn.name = "__dirs"
+    fn.decorator_list = []
+    mod = ast.Module(body=[fn], type_ignores=[])
+    ast.fix_missing_locations(mod)
+    exec(compile(mod, "<partition_on_columns: pure prefix of the group loop>", "exec"), ns)
+    params = [a.arg for a in fn.args.args]
+
+    def call(data, columns):
+        given = {"data": data, "columns": list(columns), "root_path": "", "partname": "part.0.parquet", "with_field": True}
+        return ns["__dirs"](*[given.get(a) for a in params])
+    return call
+
+
+def _selector(ofunc, ns):
+    """the REAL filter predicate of writer.overwrite and the REAL expressions its free names are assigned from; returns
+    f(new_data, partition_columns) -> predicate(relative file name)"""
+    tree = ofunc.tree
+    lams = [n.args[0] for n in ast.walk(tree) if isinstance(n, ast.Call) and isinstance(n.func, ast.Name) and n.func.id == "filter"
+            and n.args and isinstance(n.args[0], ast.Lambda)]
+    if len(lams) != 1:
+        raise Unsupported("overwrite: expected one filter(lambda ...)")
+    lam = lams[0]
+    assigns = {}
+    for n in ast.walk(tree):
+        if isinstance(n, ast.Assign) and len(n.targets) == 1 and isinstance(n.targets[0], ast.Name):
+            assigns.setdefault(n.targets[0].id, []).append(n.value)
+
+    class _Handle:          # what overwrite reads from the opened dataset to name the partition columns
+        def __init__(self, cols):
+            self.cats = {c: [] for c in cols}
+            self.row_groups, self.file_scheme, self.fn = [], "hive", "_metadata"
+
+    import builtins
+
+    def make(new_data, cols):
+        env = dict(ns, data=new_data, pf=_Handle(cols))
+
+        def resolve(name, depth=0):
+            if name in env or hasattr(builtins, name):
+                return
+            if depth > 6 or name not in assigns:
+                raise Unsupported("overwrite: cannot evaluate the free name " + name + " of the selection predicate")
+            rhs = assigns[name][0]          # the first (pre-write) binding, as in the straight-line code before the filter is built
+            for fnm in _free_names(rhs):
+                resolve(fnm, depth + 1)
+            env[name] = eval(compile(ast.fix_missing_locations(ast.Expression(body=rhs)), "<overwrite: " + name + ">", "eval"), env)
+        free = _free_names(lam.body, [a.arg for a in lam.args.args])
+        for fnm in free:
+            resolve(fnm)
+        pred = eval(compile(ast.fix_missing_locations(ast.Expression(body=lam)), "<overwrite: selection predicate>", "eval"), env)
+        pred.compared_with = {k: env[k] for k in free if k in assigns}
+        return pred
+    return make
+
+
+def _value_table():
+    import datetime
+    import numpy as np
+    import pandas as pd
+    ts = lambda xs, **kw: pd.Series(pd.to_datetime(xs, format="mixed", **kw))
+    T = [
+        ("bool", lambda: pd.Series([True, False])),
+        ("bool (object column of Python bool)", lambda: pd.Series([True, False], dtype=object)),
+        ("boolean (nullable)", lambda: pd.Series([True, False], dtype="boolean")),
+        ("int64", lambda: pd.Series([0, 1, -2, 10 ** 12, 2 ** 63 - 1])),
+        ("int8 / uint8 / int32", lambda: [pd.Series([1, -5], dtype="int8"), pd.Series([1, 200], dtype="uint8"), pd.Series([7, -70000], dtype="int32")]),
+        ("Int64 (nullable)", lambda: pd.Series([1, 2, -3], dtype="Int64")),
+        ("float64 integral", lambda: pd.Series([0.0, 1.0, -2.0, 1e16, 1e20])),
+        ("float64 fractional", lambda: pd.Series([0.5, -1.25, 0.1, 1 / 3, 1e-7])),
+        ("float32 (short decimals)", lambda: pd.Series([0.5, 2.5, -1.25, 3.0], dtype="float32")),
+        ("float32 (inexact decimals)", lambda: pd.Series([0.1, 1 / 3], dtype="float32")),
+        ("str", lambda: pd.Series(["a", "x y", "007", "Ünï", "1.0", "True", "true"])),
+        ("string dtype", lambda: pd.Series(["a", "B"], dtype="string")),
+        ("date objects", lambda: pd.Series([datetime.date(2020, 1, 1), datetime.date(2021, 6, 1)])),
+        ("datetime64 (midnight)", lambda: ts(["2020-01-01", "2021-06-01"])),
+        ("datetime64 (with time)", lambda: ts(["2020-01-01 12:00:00", "2021-06-01 01:02:03"])),
+        ("datetime64 (sub-second)", lambda: ts(["2020-01-01 12:00:00.000123", "2021-06-01"])),
+        ("datetime64 (tz-aware)", lambda: ts(["2020-01-01 12:00:00", "2021-06-01"], utc=True)),
+        ("category of str", lambda: pd.Series(["a", "b"], dtype="category")),
+        ("category of int", lambda: pd.Series([1, 2], dtype="category")),
+        ("category of bool", lambda: pd.Series([True, False], dtype="category")),
+        ("category of float", lambda: pd.Series([0.5, 1.0], dtype="category")),
+        ("category of datetime64", lambda: pd.Series(pd.Categorical(pd.to_datetime(["2020-01-01", "2021-06-01"])))),
+    ]
+    two = [("two columns (int64, bool)", lambda: (pd.Series([1, 1, 2]), pd.Series([True, False, True]))),
+           ("two columns (str, float64)", lambda: (pd.Series(["a", "a", "b"]), pd.Series([0.5, 1.0, 0.5])))]
+    return T, two
+
+
+def run_partition_text(ctx, wfuncs, afuncs, ufuncs, timeout):
+    """overwrite.partition_text_conventions_agree[T]: for every value v of the type table, written and overwritten by the REAL code:
+         the row group that partition_on_columns files under  <col>=<path_string(v)>/  is selected by overwrite's predicate
+         (partitions(path, True) in <partition text of the new data>) when the new data holds v, and is NOT selected when it holds only other values.
+    Both sides are taken from the current source on every run: the pure prefix of partition_on_columns' group loop (groupby key ->
+    path_string -> join_path -> relative file name) and overwrite's filter lambda with the expressions its free names are bound to."""
+    import warnings
+    import numpy as np
+    import pandas as pd
+    import os as _os
+    import re as _re
+    res = Results()
+    ns = {"pd": pd, "np": np, "re": _re, "os": _os}
+    for f in ("path_string", "join_path"):
+        exec(ufuncs[f].text, ns)
+    exec(afuncs["partitions"].text, ns)
+    produce = _producer(wfuncs["partition_on_columns"], ns)
+    select = _selector(wfuncs["overwrite"], ns)
+    T, two = _value_table()
+    n_eval = 0
+
+    def one(name, cols_series):
+        nonlocal n_eval
+        import time
+        t0 = time.time()
+        bad, n = None, 0
+        try:
+            with warnings.catch_warnings():
+                warnings.simplefilter("ignore")
+                cols = [f"p{k}" for k in range(len(cols_series))]
+                d = {c: pd.concat([s_, s_], ignore_index=True) for c, s_ in zip(cols, cols_series)}      # every value in two rows
+                data = pd.DataFrame(d)
+                data["x"] = range(len(data))
+                groups = produce(data, cols)
+                if len(groups) < 2:
+                    raise Unsupported("fewer than two groups")
+                for key, rel, labels in groups:
+                    same = data.loc[labels]
+                    other = data.drop(index=labels)
+                    txt = ns["partitions"](rel, True)
+                    for new, want in ((same, True), (other, False)):
+                        got = bool(select(new, cols)(rel))
+                        n += 1
+                        if got != want and bad is None:
+                            probe = select(same, cols)
+                            bad = {"partition_value": repr(key), "file_written_as": rel, "text_parsed_from_directory": txt,
+                                   "new_data_holds_the_same_value": want, "selected_for_removal": got,
+                                   "overwrite_compares_with": {k: [str(t) for t in list(v)[:3]] for k, v in probe.compared_with.items()}}
+        except Unsupported:
+            raise
+        except Exception as ex:
+            res.add(f"overwrite.partition_text_conventions_agree[{name}]", UNKNOWN, None, time.time() - t0, "enumeration (executed)",
+                    f"could not be executed: {type(ex).__name__}: {ex}"[:200])
+            return
+        n_eval += n
+        res.add(f"overwrite.partition_text_conventions_agree[{name}]", REFUTED if bad else PROVED, bad, time.time() - t0, "enumeration (executed)",
+                f"{n} evaluations of the real writer / overwrite code: a row group filed under <col>=<text of v> is selected for removal exactly when "
+                "the new data holds v (the text written into the directory name, as parsed back, equals the text overwrite computes for v)")
+    for name, mk in T:
+        v = mk()
+        for k, s_ in enumerate(v if isinstance(v, list) else [v]):
+            one(name if not isinstance(v, list) else name, [s_])
+    for name, mk in two:
+        one(name, list(mk()))
+    if not n_eval:
+        ctx.engine_error("partition text conventions: zero evaluations")
+    ctx.vacuity["covers"] += n_eval
+    return res
+
+
+PART_FUNC = {"ptext": "overwrite.partition_text_conventions_agree", "map": "row_groups_map", "remove": "remove_row_groups", "overwrite": "overwrite", "partitions": "partitions",
              "part_ids": "part_ids", "sort": "_sort_part_names"}
 
 
 def check(ctx, timeout, only=None):
     a, _, _ = parse_module("fastparquet/api.py")
     w, _, _ = parse_module("fastparquet/writer.py")
+    u, _, _ = parse_module("fastparquet/util.py")
     funcs = dict(a)
+    for n in ("path_string", "join_path"):
+        ctx.function(f"util.{n}", u[n].sha, u[n].report)
+    ctx.function("writer.partition_on_columns", w["partition_on_columns"].sha, w["partition_on_columns"].report)
     for mod, fs, names in (("api", a, ("row_groups_map", "ParquetFile.remove_row_groups", "ParquetFile._sort_part_names", "part_ids", "partitions")),
                            ("writer", w, ("overwrite",))):
         for n in names:
@@ -1977,7 +2195,8 @@ def check(ctx, timeout, only=None):
     out = []
     parts = [("map", lambda: run_row_groups_map(ctx, funcs, timeout)), ("remove", lambda: run_remove(ctx, funcs, timeout)),
              ("overwrite", lambda: run_overwrite(ctx, dict(w), timeout)), ("partitions", lambda: run_partitions(ctx, funcs, timeout)),
-             ("part_ids", lambda: run_part_ids(ctx, funcs, timeout)), ("sort", lambda: run_sort(ctx, funcs, timeout))]
+             ("part_ids", lambda: run_part_ids(ctx, funcs, timeout)), ("sort", lambda: run_sort(ctx, funcs, timeout)),
+             ("ptext", lambda: run_partition_text(ctx, w, a, u, timeout))]
     for name, fn in parts:
         if only and name not in only:
             continue
@@ -2006,6 +2225,9 @@ ASSUMED = [
     "members of xs on which f is true",
     "partitions(rg, True) of a hive path 'k1=v1/../kn=vn/file' (keys and values free of '/' and '=') is 'v1/../vn' "
     "(re.split('/|=', path)[1::2] are the values in nesting order); str.rsplit('/', 1)[0] of 'd/name' is d",
+    "partition text conventions: partition values are free of '/' and '=' (a str value containing them, or a timedelta, makes the hive "
+    "layout itself unreadable - KeyError when the dataset is reopened - so overwrite is never reached); the new data's partition "
+    "columns have the dtype they were written with; NaN / None partition values are dropped by groupby and are outside this table",
     "every referenced path of a dataset handed to _sort_part_names is '<dir>/part.<n>.parquet' (PART_ID.match(path)['i'] is the decimal "
     "n; a path that does not match makes part_ids raise before any rename); 'part.<n>.parquet' is injective in n and never equals a "
     "'.tmp' name; a file name is (directory, base name); util.join_path joins its non-empty components with '/'",
